@@ -18,7 +18,7 @@ EV = {
 
 CRASH = {'IndexError': 1, 'TypeError': 2, 'NameError': 3, 'AttributeError': 4, 'KeyError': 5,
          'ValueError': 6, 'OverflowError': 7, 'RuntimeError': 8, 'RecursionError': 8,
-         'AssertionError': 9, 'error': 10, 'Trapped': 11, 'UnboundLocalError': 12}
+         'AssertionError': 9, 'error': 10, 'Trapped': 11, 'UnboundLocalError': 12, 'SyntaxError': 13}
 
 # ---- segment registry: creation order = model segment ids
 _registry = []
